@@ -422,8 +422,7 @@ impl Complement for AdjacencyMap {
     /// The time complexity is `O(v² log v)`, where `v` is the digraph's
     /// order.
     fn complement(&self) -> Self {
-        let order = self.order();
-        let vertices = (0..order).collect::<BTreeSet<_>>();
+        let vertices = self.arcs.keys().copied().collect::<BTreeSet<_>>();
 
         Self {
             arcs: self
